@@ -127,6 +127,21 @@ def install(eng):
         if re.search(r'na::quaternion::<impl UQ>::to_rotation_matrix$', g): return one(st, D(st, a[0]))
         if re.search(r'na::quaternion_construction::<impl UQ>::identity$|na::rotation_specialization::<impl Rot3>::identity$|Rot3::identity$', g): return one(st, ident3())
         if re.search(r'^<Tr3 as std::convert::From<V3>>::from$', g): return one(st, Agg([a[0]], 'Tr3'))
+        if re.search(r'^<(V3|V6) as std::convert::Into<\[f64; \d\]>>::into$', g): return one(st, Agg(list(a[0].d)))
+        if re.search(r'^<Tr3 as std::convert::From<\[f64; 3\]>>::from$', g): return one(st, Agg([Mat(3, 1, list(a[0].items))], 'Tr3'))
+        if re.search(r'^<V3 as std::convert::From<\[f64; 3\]>>::from$', g): return one(st, Mat(3, 1, list(a[0].items)))
+        if re.search(r'(V3|V6|M3|M6)::iter$|na::Matrix::<f64, na::Const<\d>, na::Const<\d>, na::ArrayStorage<f64, \d, \d>>::iter$', g):
+            A = D(st, a[0]); r0 = a[0]
+            # nalgebra iterates column-major
+            return one(st, IterV([(True, (r0.sub(i * A.c + j) if isinstance(r0, RefV) else A.at(i, j))) for j in range(A.c) for i in range(A.r)], 'ref' if isinstance(r0, RefV) else 'val'))
+        mfi = re.search(r'(V3|V6|M3|M6)::from_iterator|construction::<impl (V3|V6|M3|M6)>::from_iterator|construction::<impl na::Matrix<f64, na::Const<(\d)>, na::Const<(\d)>.*>::from_iterator', g)
+        if mfi:
+            if mfi.group(3): r_, c_ = int(mfi.group(3)), int(mfi.group(4))
+            else: r_, c_ = {'V3': (3, 1), 'V6': (6, 1), 'M3': (3, 3), 'M6': (6, 6)}[mfi.group(1) or mfi.group(2)]
+            it = a[0]
+            if not hasattr(it, 'ents') or any(g_ is not True for g_, _ in it.ents) or len(it.ents) < r_ * c_: raise Inconclusive('from_iterator over a guarded / short iterator')
+            vals = [D(st, x) if isinstance(x, RefV) else x for _, x in it.ents[:r_ * c_]]
+            return one(st, Mat(r_, c_, [vals[j * r_ + i] for i in range(r_) for j in range(c_)]))      # column-major fill
         if re.search(r'na::translation_construction::<impl Tr3>::new$', g): return one(st, Agg([Mat(3, 1, a)], 'Tr3'))
         if re.search(r'na::translation_construction::<impl Tr3>::identity$', g): return one(st, Agg([zero3()], 'Tr3'))
         if g == 'Iso3::from_parts': return one(st, Iso(a[1], a[0].items[0]))
